@@ -880,7 +880,7 @@ Lemma already_quoted_has_sq n : already_quoted n = true -> has_sq n = true.
 Proof.
   unfold already_quoted. destruct n as [|c [|c' r]]; try discriminate.
   destruct (rev (c :: c' :: r)); [discriminate|]. intro H. apply andb_prop in H. destruct H as [H _].
-  apply Ascii.eqb_eq in H. subst. unfold has_sq. simpl. rewrite Ascii.eqb_refl. reflexivity.
+  apply Ascii.eqb_eq in H. subst. unfold has_sq. cbn [existsb]. rewrite Ascii.eqb_refl. reflexivity.
 Qed.
 
 (* the coded rule IS the specified one on every name a script can hold (names never contain a quote character) *)
@@ -921,6 +921,16 @@ Proof.
   { unfold has_sq in Hq. simpl in Hq. apply orb_false_iff in Hq. destruct Hq as [Hq _].
     rewrite Ascii.eqb_sym. exact Hq. }
   destruct Hp as [Hp|Hp]; rewrite Hp; [reflexivity|]. rewrite andb_false_r. reflexivity.
+Qed.
+
+(* a reserved word written bare is a keyword, not an identifier *)
+Lemma bare_reserved_not_identifier : forall reserved n,
+  n <> [] -> has_sq n = false -> mem_bytes n reserved = true -> parse_ident reserved n = None.
+Proof.
+  intros reserved n Hne Hq Hm. unfold parse_ident. destruct n as [|c s]; [congruence|].
+  assert (Ascii.eqb c c_sq = false) as ->.
+  { unfold has_sq in Hq. simpl in Hq. apply orb_false_iff in Hq. destruct Hq as [Hq _]. rewrite Ascii.eqb_sym. exact Hq. }
+  rewrite Hm. rewrite andb_false_r. reflexivity.
 Qed.
 
 Lemma quote_reserved_roundtrip_witness_before_fix : forall reserved, mem_bytes (B "a b") reserved = false ->
